@@ -51,6 +51,13 @@ class TLCResult:
         self.depth = int(m.group(1)) if m else None
         self.violated = re.findall(r'Invariant (\S+) is violated', out)
         self.ok = rc == 0
+        self.complete = True
+        if not self.distinct:
+            # stopped by the time budget: the last progress line says how much was explored
+            pr = re.findall(r'Progress\(\d+\) at [^:]*:[^:]*:[^:]*: ([\d,]+) states generated.*?, ([\d,]+) distinct states found', out)
+            if pr:
+                self.generated = int(pr[-1][0].replace(',', ''))
+                self.distinct = int(pr[-1][1].replace(',', ''))
 
     def printed(self, tag):
         """All values printed with PrintT(<<"tag", ...>>); returns the raw text after the tag."""
@@ -88,8 +95,12 @@ def tla_workspace(*modules_dirs):
 
 def run_tlc(ws, module, cfg=None, *, workers=None, simulate=None, depth=None, seed=None,
             env=None, timeout=1800, extra=(), xss='1g', heap=None, coverage=False, cont=False,
-            allow_violation=False):
+            allow_violation=False, budget=None):
+    """budget (seconds): an exhaustive run that is allowed not to finish -- when the budget is used up TLC is stopped and the
+    result (complete=False) covers the states explored so far (no violation among them)."""
     cfg = cfg or (module + '.cfg')
+    if budget:
+        timeout = budget
     cmd = ['java', '-Xss' + xss, '-XX:+UseParallelGC']
     if workers and str(workers).isdigit() and int(workers) <= 4:
         cmd.append('-XX:ParallelGCThreads=2')
@@ -119,11 +130,16 @@ def run_tlc(ws, module, cfg=None, *, workers=None, simulate=None, depth=None, se
         p = subprocess.run(cmd, cwd=ws, env=e, stdout=subprocess.PIPE, stderr=subprocess.STDOUT,
                            timeout=timeout, text=True, errors='replace')
     except subprocess.TimeoutExpired as ex:
-        if simulate:   # simulation under an outer timeout is a normal way to stop
+        if simulate or budget:   # simulation under an outer timeout is a normal way to stop; so is a budgeted exhaustive run
             out = ex.stdout or ''
             if isinstance(out, bytes):
                 out = out.decode('utf8', 'replace')
-            return TLCResult(0, out, time.time() - t0)
+            r = TLCResult(0, out, time.time() - t0)
+            if r.violated:
+                r.ok = False
+                r.rc = 12
+            r.complete = False
+            return r
         raise MachineryError('TLC timeout after %ss: %s' % (timeout, ' '.join(cmd)))
     r = TLCResult(p.returncode, p.stdout, time.time() - t0)
     if p.returncode != 0 and not (allow_violation and p.returncode in (12, 13)):
